@@ -109,6 +109,44 @@ def xml_slots():
     return S
 
 
+# ---- dynamic templates: quantifiers over instances, members of the bound instance, spawn / exit / numOf --------------
+DYN = ["forall", "exists", "sum", "foreach", "(", ")", ":", ".", ",", "D", "b", "i", "dload", "Idle", "0", "1", "+", "<", "==", "=", "&&", "'",
+       "numOf", "spawn", "exit", "?", "[", "]", "zz", "!", "T", "int", "/*", ";"]
+D_TEMPLATE = ('<template><name>D</name><parameter>int[0,3] dk</parameter><declaration>int dload = 1;</declaration>'
+              '<location id="d0"><name>Idle</name></location><init ref="d0"/></template>')
+
+
+def dyn_doc(**kw):
+    kw["gdecl"] = "dynamic D(int[0,3] dk); " + kw.get("gdecl", GDECL)
+    d = ta_doc(**kw)
+    assert "<template><name>T</name>" in d
+    return d.replace("<template><name>T</name>", D_TEMPLATE + "<template><name>T</name>", 1)
+
+
+def dyn_slots():
+    q = ["forall", "(", "b", ":", "D", ")"]
+    seeds = [[], q, q + ["("], q + ["(", "b", "."], ["sum", "(", "b", ":", "D", ")"], ["sum", "(", "b", ":", "D", ")", "b", "."],
+             q + ["(", "exists", "(", "b", ":", "D", ")", "("], q + ["(", "exists", "(", "b", ":", "D", ")", "(", "b", ".", "dload", ")", "&&"],
+             ["spawn"], ["spawn", "D", "("], ["numOf", "("], ["foreach", "(", "b", ":"], ["forall", "(", "b", ":"]]
+    S = {}
+    S["dyn-guard"] = (dyn_doc(edge=lab("guard", SLOT) + lab("assignment", "j = 1")), DYN, seeds)
+    S["dyn-assignment"] = (dyn_doc(edge=lab("guard", "i >= 0") + lab("assignment", SLOT)), DYN, seeds + [["i", "="], ["i", "=", "spawn"]])
+    S["dyn-invariant"] = (dyn_doc(loc0=lab("invariant", SLOT)), DYN, seeds[:6])
+    fb = ["void", "f0", "(", ")", "{"]
+    S["dyn-declaration"] = (dyn_doc(gdecl=GDECL + SLOT), DYN + ["void", "f0", "{", "}", "return", "dynamic"],
+                            [[], fb, fb + ["i", "="] + q, fb + ["spawn"], fb + ["exit", "("], ["dynamic"], ["dynamic", "zz", "("]])
+    S["dyn-local-declaration"] = (dyn_doc(ldecl="int l; clock lx; " + SLOT), DYN + ["void", "f0", "{", "}", "return", "dynamic"],
+                                  [[], fb, fb + ["spawn"], fb + ["exit", "("], ["dynamic"]])
+    return S
+
+
+def dyn_prop_seeds():
+    q = ["forall", "(", "b", ":", "D", ")"]
+    pr = ["Pr[", "<=", "10", "]", "(", "<>"]
+    return [pr, pr + q, pr + q + ["(", "b", "."], pr + ["numOf", "("], pr + ["sum", "(", "b", ":", "D", ")"], pr + ["foreach", "(", "b", ":", "D", ")"],
+            ["E<>"] + q, ["simulate", "[", "<=", "10", "]", "{"], ["simulate", "[", "<=", "10", "]", "{", "foreach", "("]]
+
+
 XTA_PRE = GDECL + "\n"
 XTA_POST = ""
 
